@@ -16,6 +16,8 @@ import (
 // state it makes and whether they are dominated by Lock()/RLock() on that instance's mutex.
 // The extractor is syntactic and answers `unknown` (-> guarded := false) for shapes it does not
 // understand; it never guesses in favour of the code.
+// The same file carries a second table, `sectionTable` (see "Section table" below): the ordered list
+// of the critical sections every method consists of.
 
 var memTypes = map[string][]string{ // type -> mutable fields
 	"BloomFilter":    {"filter"},
@@ -47,6 +49,13 @@ type methodInfo struct {
 	unknown   bool
 	calls     []helperCall // calls to other methods of mem types through tracked identifiers
 	selfLocks bool
+	// an Unlock/RUnlock below the top level of the body ("explicit Unlock before every return"): this
+	// walk shares one lock state between the branches and cannot follow it; the accesses are judged as
+	// if the Unlock were not there, and the verdict is left to the path-sensitive section analysis
+	// below (guarded only if that analysis understands the method and finds no access outside a section)
+	nestedUnlock bool
+	decl         *ast.FuncDecl  // for the section analysis (secAnalysis below)
+	pos          token.Position // position of the declaration
 }
 
 type helperCall struct {
@@ -215,6 +224,12 @@ func (m *methodInfo) walk(stmts []ast.Stmt, st *lockState, top bool) {
 		case *ast.ExprStmt:
 			if id, op := lockCall(v.X); id != "" {
 				if !top {
+					if strings.HasSuffix(op, "Unlock") {
+						if _, held := st.held[id]; held {
+							m.nestedUnlock = true
+							continue
+						}
+					}
 					m.unknown = true
 					continue
 				}
@@ -284,17 +299,25 @@ func (m *methodInfo) walk(stmts []ast.Stmt, st *lockState, top bool) {
 }
 
 func collectMethods(repo string) ([]*methodInfo, error) {
+	ms, _, err := collectMethodsAndFacts(repo)
+	return ms, err
+}
+
+func collectMethodsAndFacts(repo string) ([]*methodInfo, *repoFacts, error) {
 	fset := token.NewFileSet()
 	files, _ := filepath.Glob(filepath.Join(repo, "*.go"))
+	sort.Strings(files)
 	var out []*methodInfo
+	facts := &repoFacts{fset: fset, fieldTypes: map[string]map[string]string{}, lockingFuncs: map[string]bool{}, lockingForeignMethods: map[string]bool{}}
 	for _, f := range files {
 		if strings.HasSuffix(f, "_test.go") || strings.HasPrefix(filepath.Base(f), "verif_") {
 			continue
 		}
 		af, err := parser.ParseFile(fset, f, nil, 0)
 		if err != nil {
-			return nil, err
+			return nil, nil, err
 		}
+		facts.collect(af)
 		for _, d := range af.Decls {
 			fd, ok := d.(*ast.FuncDecl)
 			if !ok || fd.Recv == nil || len(fd.Recv.List) == 0 || fd.Body == nil {
@@ -304,7 +327,7 @@ func collectMethods(repo string) ([]*methodInfo, error) {
 			if _, ok := memTypes[rt]; !ok {
 				continue
 			}
-			m := &methodInfo{typ: rt, name: fd.Name.Name, params: map[string]string{}}
+			m := &methodInfo{typ: rt, name: fd.Name.Name, params: map[string]string{}, decl: fd, pos: fset.Position(fd.Pos())}
 			if len(fd.Recv.List[0].Names) > 0 {
 				m.recvName = fd.Recv.List[0].Names[0].Name
 				m.params[m.recvName] = rt
@@ -327,7 +350,7 @@ func collectMethods(repo string) ([]*methodInfo, error) {
 		}
 		return out[i].name < out[j].name
 	})
-	return out, nil
+	return out, facts, nil
 }
 
 func leanBool(b bool) string {
@@ -338,7 +361,7 @@ func leanBool(b bool) string {
 }
 
 func genLockTable(repo string) (string, error) {
-	ms, err := collectMethods(repo)
+	ms, facts, err := collectMethodsAndFacts(repo)
 	if err != nil {
 		return "", err
 	}
@@ -364,6 +387,9 @@ func genLockTable(repo string) (string, error) {
 				if h.unknown {
 					m.unknown = true
 				}
+				if h.nestedUnlock {
+					m.nestedUnlock = true
+				}
 			}
 		}
 		for _, m := range ms { // avoid unbounded duplication
@@ -372,12 +398,13 @@ func genLockTable(repo string) (string, error) {
 			}
 		}
 	}
+	secs := analyseSections(ms, byKey, facts)
 	var sb strings.Builder
 	sb.WriteString("/- GENERATED by /verif/extract from /repo's current sources on every run. DO NOT EDIT. -/\n")
-	sb.WriteString("import Gostatix.Model.Conc\nnamespace Gostatix.Generated\nopen Gostatix.Conc\n\n")
+	sb.WriteString("import Gostatix.Model.Conc\nimport Gostatix.Model.Sections\nnamespace Gostatix.Generated\nopen Gostatix.Conc\n\n")
 	sb.WriteString("def lockTable : List MethodFact := [\n")
 	first := true
-	for _, m := range ms {
+	for mi, m := range ms {
 		touches, writes, guarded, excl := false, false, true, true
 		for _, a := range m.accesses {
 			touches = true
@@ -394,6 +421,9 @@ func genLockTable(repo string) (string, error) {
 		if m.unknown {
 			guarded = false
 		}
+		if m.nestedUnlock && (secs[mi].unknown || secs[mi].anyBare()) {
+			guarded = false
+		}
 		helper := touches && !m.selfLocks && !ast.IsExported(m.name)
 		exempt := exemptMethods[m.name] || helper
 		if !first {
@@ -403,8 +433,859 @@ func genLockTable(repo string) (string, error) {
 		fmt.Fprintf(&sb, "  { typ := %q, method := %q, touchesMutable := %s, writesMutable := %s, guarded := %s, exclusive := %s, exempt := %s }",
 			m.typ, m.name, leanBool(touches), leanBool(writes), leanBool(guarded && touches), leanBool(excl && touches), leanBool(exempt))
 	}
-	sb.WriteString("\n]\n\nend Gostatix.Generated\n")
+	sb.WriteString("\n]\n\n")
+	writeSectionTable(&sb, secs)
+	sb.WriteString("\nend Gostatix.Generated\n")
 	return sb.String(), nil
+}
+
+// ---------------------------------------------------------------------------------------------
+// Section table (C07Sections): for every method of the five in-memory types, the ORDERED list of
+// the critical sections it consists of.  The lock table above answers "is every access guarded";
+// this one answers "how many critical sections is one call made of, on which instances, in which
+// order, nested or one after the other".  Same rules: syntactic, path-insensitive wherever the
+// paths disagree, and `sectionsUnknown` for every shape that is not listed here:
+//
+//   understood
+//     X.lock.Lock() / X.lock.RLock()        as a statement of the function body itself (not inside
+//                                           a branch, a loop, a block or a closure)
+//     X.lock.Unlock() / X.lock.RUnlock()    as a statement anywhere, when it closes a section this
+//                                           method opened on X with the matching mode and every path
+//                                           agrees on what is held wherever paths join
+//     defer X.lock.Unlock() / RUnlock()     as a statement of the function body, for a section that
+//                                           is open: the section lasts until the function returns
+//     if c { X.lock.Lock(); defer X.lock.Unlock() }   (exactly this) as a statement of the function
+//                                           body: a CONDITIONAL section that lasts until the return
+//     return / panic(..) / end of body      every section still open must be a deferred one
+//     X.M(..)                               M a method of the five types that takes locks itself
+//                                           (directly or through such calls): one item `call`, a
+//                                           section of the callee's instance, not expanded
+//     X.h(..)                               h a method of the five types that takes no lock: its
+//                                           accesses are charged to the section open on X here
+//   X is the receiver (`recv`), a parameter (`arg`), recv.f for a field f whose type is one of the
+//   five types or a local `a := recv.f` (`field`), anything else (`other`).
+//
+//   unknown (refused)
+//     Lock/RLock inside a branch, a loop, a block, a closure, a defer, a go statement; a second Lock
+//     on an instance already held; Unlock of something this method does not hold, with the wrong
+//     mode, or already deferred; paths that join holding different locks (if without else that
+//     unlocks, loop body that unlocks and continues, break/continue holding less than at loop
+//     entry); return / panic / fall-through with a not-deferred section still open ("unlock missing
+//     on a path"); any other mention of a `.lock` field (address taken, passed to a helper, method
+//     value, closure); switch / select / go / goto / labels; a deferred call that touches the
+//     tracked state or calls a method of the five types; a call to a function or foreign method of
+//     the package whose body mentions a lock; an instance of the five types handed to a function
+//     that is not a method of the five types; a call to a locking method outside every section from
+//     inside a branch or loop (the number of sections would depend on the path); a re-assigned
+//     alias.
+
+type repoFacts struct {
+	fset                  *token.FileSet
+	fieldTypes            map[string]map[string]string // mem type -> field -> mem type (pointer or value)
+	lockingFuncs          map[string]bool              // package-level functions whose body mentions a lock
+	lockingForeignMethods map[string]bool              // methods of other types whose body mentions a lock
+}
+
+func mentionsLock(n ast.Node) bool {
+	found := false
+	ast.Inspect(n, func(x ast.Node) bool {
+		if sel, ok := x.(*ast.SelectorExpr); ok {
+			switch sel.Sel.Name {
+			case "lock", "Lock", "RLock", "Unlock", "RUnlock", "TryLock", "TryRLock":
+				found = true
+			}
+		}
+		return !found
+	})
+	return found
+}
+
+func (rf *repoFacts) collect(af *ast.File) {
+	for _, d := range af.Decls {
+		switch v := d.(type) {
+		case *ast.GenDecl:
+			for _, sp := range v.Specs {
+				ts, ok := sp.(*ast.TypeSpec)
+				if !ok {
+					continue
+				}
+				st, ok := ts.Type.(*ast.StructType)
+				if !ok {
+					continue
+				}
+				if _, ok := memTypes[ts.Name.Name]; !ok {
+					continue
+				}
+				ft := map[string]string{}
+				for _, f := range st.Fields.List {
+					tn := typeName(f.Type)
+					if _, ok := memTypes[tn]; ok {
+						for _, n := range f.Names {
+							ft[n.Name] = tn
+						}
+					}
+				}
+				rf.fieldTypes[ts.Name.Name] = ft
+			}
+		case *ast.FuncDecl:
+			if v.Body == nil || !mentionsLock(v.Body) {
+				continue
+			}
+			if v.Recv == nil || len(v.Recv.List) == 0 {
+				rf.lockingFuncs[v.Name.Name] = true
+			} else if _, ok := memTypes[typeName(v.Recv.List[0].Type)]; !ok {
+				rf.lockingForeignMethods[v.Name.Name] = true
+			}
+		}
+	}
+}
+
+// instRef names the instance a lock / call / access goes through
+type instRef struct {
+	key  string // canonical expression, e.g. "t", "t.sketch"
+	kind string // recv | arg | field | other
+	name string // parameter name, field name, or the expression for `other`
+	typ  string // mem type of the instance, "" when it is none of the five
+}
+
+func (r instRef) lean() string {
+	switch r.kind {
+	case "recv":
+		return ".recv"
+	case "arg":
+		return fmt.Sprintf(".arg %q", r.name)
+	case "field":
+		return fmt.Sprintf(".field %q", r.name)
+	}
+	return fmt.Sprintf(".other %q", r.name)
+}
+
+func (r instRef) show() string {
+	switch r.kind {
+	case "recv":
+		return "recv"
+	case "arg":
+		return "arg:" + r.name
+	case "field":
+		return "field:" + r.name
+	}
+	return "other"
+}
+
+type secItem struct {
+	inst        instRef
+	mode        string // W | R | call
+	callee      string // method name for mode call (the type is inst.typ)
+	nested      bool   // starts while an earlier section of this method is still held
+	outer       *secItem
+	seq         bool // released before the next item of the list starts
+	reads       bool
+	writes      bool
+	conditional bool
+	deferred    bool
+	depth       int // statement nesting depth where it starts (calls only)
+	pos         token.Position
+	endPos      token.Position // first explicit release seen
+	args        []ast.Expr     // call arguments (calls only)
+	held        pstate         // the sections held when this one starts, outermost first
+}
+
+type rw struct{ r, w bool }
+
+type secAnalysis struct {
+	m        *methodInfo
+	facts    *repoFacts
+	byKey    map[string]*methodInfo
+	params   []string          // parameter names in order
+	paramTyp map[string]string // every parameter -> mem type or ""
+	alias    map[string]instRef
+	items    []*secItem
+	bare     map[string]*rw // instance key -> accesses outside every section on that instance
+	unknown  bool
+	why      []string
+	locking  bool
+}
+
+func (sa *secAnalysis) anyBare() bool {
+	for _, b := range sa.bare {
+		if b.r || b.w {
+			return true
+		}
+	}
+	return false
+}
+
+func (sa *secAnalysis) refuse(pos token.Pos, format string, a ...interface{}) {
+	sa.unknown = true
+	p := sa.facts.fset.Position(pos)
+	w := fmt.Sprintf("%s:%d %s", filepath.Base(p.Filename), p.Line, fmt.Sprintf(format, a...))
+	for _, x := range sa.why {
+		if x == w {
+			return
+		}
+	}
+	sa.why = append(sa.why, w)
+}
+
+func exprString(e ast.Expr) string {
+	switch v := e.(type) {
+	case *ast.Ident:
+		return v.Name
+	case *ast.SelectorExpr:
+		return exprString(v.X) + "." + v.Sel.Name
+	case *ast.ParenExpr:
+		return exprString(v.X)
+	case *ast.StarExpr:
+		return "*" + exprString(v.X)
+	case *ast.UnaryExpr:
+		return v.Op.String() + exprString(v.X)
+	case *ast.IndexExpr:
+		return exprString(v.X) + "[..]"
+	case *ast.CallExpr:
+		return exprString(v.Fun) + "(..)"
+	}
+	return "?"
+}
+
+// resolve maps an expression to the instance it denotes (receiver, parameter, recv.f, alias)
+func (sa *secAnalysis) resolve(e ast.Expr) (instRef, bool) {
+	switch v := e.(type) {
+	case *ast.ParenExpr:
+		return sa.resolve(v.X)
+	case *ast.StarExpr:
+		return sa.resolve(v.X)
+	case *ast.UnaryExpr:
+		if v.Op == token.AND {
+			return sa.resolve(v.X)
+		}
+	case *ast.Ident:
+		if r, ok := sa.alias[v.Name]; ok {
+			return r, true
+		}
+		if v.Name != "" && v.Name == sa.m.recvName {
+			return instRef{v.Name, "recv", "", sa.m.typ}, true
+		}
+		if t, ok := sa.paramTyp[v.Name]; ok {
+			return instRef{v.Name, "arg", v.Name, t}, true
+		}
+	case *ast.SelectorExpr:
+		base, ok := sa.resolve(v.X)
+		if ok && base.typ != "" {
+			if ft, ok := sa.facts.fieldTypes[base.typ][v.Sel.Name]; ok {
+				key := base.key + "." + v.Sel.Name
+				if base.kind == "recv" {
+					return instRef{key, "field", v.Sel.Name, ft}, true
+				}
+				return instRef{key, "other", key, ft}, true
+			}
+		}
+	}
+	return instRef{}, false
+}
+
+// lockOp recognises E.lock.Lock() / RLock() / Unlock() / RUnlock() for an arbitrary E
+func (sa *secAnalysis) lockOp(e ast.Expr) (instRef, string, bool) {
+	call, ok := e.(*ast.CallExpr)
+	if !ok || len(call.Args) != 0 {
+		return instRef{}, "", false
+	}
+	sel, ok := call.Fun.(*ast.SelectorExpr)
+	if !ok {
+		return instRef{}, "", false
+	}
+	inner, ok := sel.X.(*ast.SelectorExpr)
+	if !ok || inner.Sel.Name != "lock" {
+		return instRef{}, "", false
+	}
+	switch sel.Sel.Name {
+	case "Lock", "RLock", "Unlock", "RUnlock":
+	default:
+		return instRef{}, "", false
+	}
+	r, ok := sa.resolve(inner.X)
+	if !ok {
+		s := exprString(inner.X)
+		r = instRef{s, "other", s, ""}
+	}
+	return r, sel.Sel.Name, true
+}
+
+// path state: the sections held, outermost first
+type pstate []*secItem
+
+func (p pstate) clone() pstate { return append(pstate(nil), p...) }
+func (p pstate) equal(q pstate) bool {
+	if len(p) != len(q) {
+		return false
+	}
+	for i := range p {
+		if p[i] != q[i] {
+			return false
+		}
+	}
+	return true
+}
+func (p pstate) on(key string) *secItem {
+	for i := len(p) - 1; i >= 0; i-- {
+		if p[i].inst.key == key {
+			return p[i]
+		}
+	}
+	return nil
+}
+func (p pstate) innermost() *secItem {
+	if len(p) == 0 {
+		return nil
+	}
+	return p[len(p)-1]
+}
+func (p pstate) without(it *secItem) pstate {
+	var q pstate
+	for _, x := range p {
+		if x != it {
+			q = append(q, x)
+		}
+	}
+	return q
+}
+func (p pstate) allDeferred() bool {
+	for _, x := range p {
+		if !x.deferred {
+			return false
+		}
+	}
+	return true
+}
+
+type walkCtx struct {
+	depth     int
+	loopEntry []pstate
+}
+
+func (sa *secAnalysis) touch(st pstate, key string, write bool) {
+	if s := st.on(key); s != nil {
+		if write {
+			s.writes = true
+		} else {
+			s.reads = true
+		}
+		return
+	}
+	b := sa.bare[key]
+	if b == nil {
+		b = &rw{}
+		sa.bare[key] = b
+	}
+	if write {
+		b.w = true
+	} else {
+		b.r = true
+	}
+}
+
+// scanNode records, for an expression or a statement without lock operations of its own, the
+// accesses to tracked mutable state, the calls to methods of the five types, and everything that
+// makes the shape not understood
+func (sa *secAnalysis) scanNode(n ast.Node, st pstate, ctx walkCtx, lhsWrite bool) {
+	if n == nil {
+		return
+	}
+	// accesses: the legacy scanner, on a scratch record
+	tmp := &methodInfo{typ: sa.m.typ, name: sa.m.name, recvName: sa.m.recvName, params: sa.m.params}
+	tmp.scan(n, &lockState{held: map[string]string{}}, lhsWrite)
+	if tmp.unknown {
+		sa.refuse(n.Pos(), "lock operation in an unexpected position")
+	}
+	for _, a := range tmp.accesses {
+		sa.touch(st, a.recv, a.write)
+	}
+	ast.Inspect(n, func(x ast.Node) bool {
+		switch v := x.(type) {
+		case *ast.SelectorExpr:
+			if v.Sel.Name == "lock" {
+				sa.refuse(v.Pos(), "mutex %s used outside a Lock/Unlock statement", exprString(v))
+			}
+		case *ast.GoStmt:
+			sa.refuse(v.Pos(), "go statement")
+		case *ast.CallExpr:
+			if id, ok := v.Fun.(*ast.Ident); ok && sa.facts.lockingFuncs[id.Name] {
+				sa.refuse(v.Pos(), "call of %s, whose body mentions a lock", id.Name)
+			}
+			isMemCall := false
+			if sel, ok := v.Fun.(*ast.SelectorExpr); ok {
+				if r, ok := sa.resolve(sel.X); ok && r.typ != "" {
+					if _, ok := sa.byKey[r.typ+"."+sel.Sel.Name]; ok {
+						isMemCall = true
+						it := &secItem{inst: r, mode: "call", callee: sel.Sel.Name, pos: sa.facts.fset.Position(v.Pos()),
+							depth: ctx.depth, args: v.Args, held: st.clone(), outer: st.innermost()}
+						it.nested = it.outer != nil
+						sa.items = append(sa.items, it)
+					}
+				}
+				if !isMemCall && sa.facts.lockingForeignMethods[sel.Sel.Name] {
+					sa.refuse(v.Pos(), "call of a method %s whose body mentions a lock", sel.Sel.Name)
+				}
+			}
+			if !isMemCall {
+				for _, a := range v.Args {
+					if r, ok := sa.resolve(a); ok && r.typ != "" {
+						sa.refuse(a.Pos(), "instance %s handed to %s", exprString(a), exprString(v.Fun))
+					}
+				}
+			}
+		}
+		return true
+	})
+}
+
+func isPanicCall(e ast.Expr) bool {
+	call, ok := e.(*ast.CallExpr)
+	if !ok {
+		return false
+	}
+	id, ok := call.Fun.(*ast.Ident)
+	return ok && id.Name == "panic"
+}
+
+func (sa *secAnalysis) openSection(st pstate, r instRef, op string, pos token.Pos) pstate {
+	if st.on(r.key) != nil {
+		sa.refuse(pos, "%s locked while this method already holds it", r.key)
+	}
+	it := &secItem{inst: r, mode: map[string]string{"Lock": "W", "RLock": "R"}[op], pos: sa.facts.fset.Position(pos), outer: st.innermost(), held: st.clone()}
+	it.nested = it.outer != nil
+	sa.items = append(sa.items, it)
+	return append(st.clone(), it)
+}
+
+func (sa *secAnalysis) closeSection(st pstate, r instRef, op string, pos token.Pos) pstate {
+	s := st.on(r.key)
+	if s == nil {
+		sa.refuse(pos, "%s of %s, which this method does not hold here", op, r.key)
+		return st
+	}
+	if s.deferred {
+		sa.refuse(pos, "%s of %s, whose release is already deferred", op, r.key)
+		return st
+	}
+	if (s.mode == "W") != (op == "Unlock") {
+		sa.refuse(pos, "%s closes a section opened in the other mode", op)
+	}
+	if s.endPos.Line == 0 {
+		s.endPos = sa.facts.fset.Position(pos)
+	}
+	return st.without(s)
+}
+
+// isLockIfGen: if <cond> { X.lock.Lock(); defer X.lock.Unlock() }
+func (sa *secAnalysis) isLockIfGen(s *ast.IfStmt) (instRef, string, bool) {
+	if s.Else != nil || s.Init != nil || len(s.Body.List) != 2 {
+		return instRef{}, "", false
+	}
+	es, ok := s.Body.List[0].(*ast.ExprStmt)
+	if !ok {
+		return instRef{}, "", false
+	}
+	r, op, ok := sa.lockOp(es.X)
+	if !ok || (op != "Lock" && op != "RLock") {
+		return instRef{}, "", false
+	}
+	ds, ok := s.Body.List[1].(*ast.DeferStmt)
+	if !ok {
+		return instRef{}, "", false
+	}
+	r2, op2, ok := sa.lockOp(ds.Call)
+	if !ok || r2.key != r.key || (op == "Lock") != (op2 == "Unlock") || (op == "RLock") != (op2 == "RUnlock") {
+		return instRef{}, "", false
+	}
+	return r, op, true
+}
+
+// walk returns the path state after the statements and whether every path through them left
+// the enclosing block (return, panic, break, continue)
+func (sa *secAnalysis) walk(stmts []ast.Stmt, st pstate, ctx walkCtx) (pstate, bool) {
+	for _, s := range stmts {
+		switch v := s.(type) {
+		case *ast.ExprStmt:
+			if r, op, ok := sa.lockOp(v.X); ok {
+				switch op {
+				case "Lock", "RLock":
+					if ctx.depth > 0 {
+						sa.refuse(v.Pos(), "%s taken inside a branch, loop or block", op)
+					}
+					st = sa.openSection(st, r, op, v.Pos())
+				default:
+					st = sa.closeSection(st, r, op, v.Pos())
+				}
+				continue
+			}
+			sa.scanNode(v.X, st, ctx, false)
+			if isPanicCall(v.X) {
+				if !st.allDeferred() {
+					sa.refuse(v.Pos(), "panic with a lock held whose release is not deferred")
+				}
+				return st, true
+			}
+		case *ast.DeferStmt:
+			if r, op, ok := sa.lockOp(v.Call); ok {
+				sec := st.on(r.key)
+				switch {
+				case op == "Lock" || op == "RLock":
+					sa.refuse(v.Pos(), "deferred %s", op)
+				case ctx.depth > 0:
+					sa.refuse(v.Pos(), "deferred %s inside a branch, loop or block", op)
+				case sec == nil:
+					sa.refuse(v.Pos(), "deferred %s of %s, which is not held here", op, r.key)
+				case sec.deferred:
+					sa.refuse(v.Pos(), "second deferred release of %s", r.key)
+				default:
+					if (sec.mode == "W") != (op == "Unlock") {
+						sa.refuse(v.Pos(), "deferred %s closes a section opened in the other mode", op)
+					}
+					sec.deferred = true
+				}
+				continue
+			}
+			before := len(sa.items)
+			probe := &methodInfo{typ: sa.m.typ, name: sa.m.name, recvName: sa.m.recvName, params: sa.m.params}
+			probe.scan(v.Call, &lockState{held: map[string]string{}}, false)
+			sa.scanNode(v.Call, st, ctx, false)
+			if len(probe.accesses) > 0 || len(sa.items) != before {
+				sa.refuse(v.Pos(), "deferred call touches tracked state or calls a method of the five types")
+			}
+		case *ast.IfStmt:
+			if r, op, ok := sa.isLockIfGen(v); ok && ctx.depth == 0 {
+				sa.scanNode(v.Cond, st, ctx, false)
+				st = sa.openSection(st, r, op, v.Body.List[0].Pos())
+				sec := st.innermost()
+				sec.conditional = true
+				sec.deferred = true
+				continue
+			}
+			if v.Init != nil {
+				sa.walkSimple(v.Init, st, ctx)
+			}
+			sa.scanNode(v.Cond, st, ctx, false)
+			inner := walkCtx{ctx.depth + 1, ctx.loopEntry}
+			var ends []pstate
+			if e, term := sa.walk(v.Body.List, st.clone(), inner); !term {
+				ends = append(ends, e)
+			}
+			switch e := v.Else.(type) {
+			case nil:
+				ends = append(ends, st)
+			case *ast.BlockStmt:
+				if e2, term := sa.walk(e.List, st.clone(), inner); !term {
+					ends = append(ends, e2)
+				}
+			default:
+				if e2, term := sa.walk([]ast.Stmt{e}, st.clone(), inner); !term {
+					ends = append(ends, e2)
+				}
+			}
+			if len(ends) == 0 {
+				return st, true
+			}
+			for _, e := range ends[1:] {
+				if !e.equal(ends[0]) {
+					sa.refuse(v.Pos(), "the branches of this if join holding different locks")
+					break
+				}
+			}
+			st = ends[0]
+		case *ast.ForStmt:
+			if v.Init != nil {
+				sa.walkSimple(v.Init, st, ctx)
+			}
+			if v.Cond != nil {
+				sa.scanNode(v.Cond, st, ctx, false)
+			}
+			if v.Post != nil {
+				sa.walkSimple(v.Post, st, ctx)
+			}
+			sa.walkLoopBody(v.Body.List, st, ctx, v.Pos())
+		case *ast.RangeStmt:
+			if v.Key != nil {
+				sa.scanNode(v.Key, st, ctx, true)
+			}
+			if v.Value != nil {
+				sa.scanNode(v.Value, st, ctx, true)
+			}
+			sa.scanNode(v.X, st, ctx, false)
+			sa.walkLoopBody(v.Body.List, st, ctx, v.Pos())
+		case *ast.BlockStmt:
+			e, term := sa.walk(v.List, st.clone(), walkCtx{ctx.depth + 1, ctx.loopEntry})
+			if term {
+				return e, true
+			}
+			st = e
+		case *ast.ReturnStmt:
+			for _, r := range v.Results {
+				sa.scanNode(r, st, ctx, false)
+			}
+			if !st.allDeferred() {
+				sa.refuse(v.Pos(), "return with a lock held whose release is not deferred (unlock missing on this path)")
+			}
+			return st, true
+		case *ast.BranchStmt:
+			if v.Label != nil || (v.Tok != token.BREAK && v.Tok != token.CONTINUE) || len(ctx.loopEntry) == 0 {
+				sa.refuse(v.Pos(), "%s", v.Tok.String())
+			} else if !st.equal(ctx.loopEntry[len(ctx.loopEntry)-1]) {
+				sa.refuse(v.Pos(), "%s holding other locks than at loop entry", v.Tok.String())
+			}
+			return st, true
+		case *ast.SwitchStmt, *ast.TypeSwitchStmt, *ast.SelectStmt, *ast.GoStmt, *ast.LabeledStmt:
+			sa.refuse(s.Pos(), "statement kind not analysed (switch / select / go / label)")
+			sa.scanNode(s, st, ctx, false)
+		default:
+			sa.walkSimple(s, st, ctx)
+		}
+	}
+	return st, false
+}
+
+func (sa *secAnalysis) walkLoopBody(body []ast.Stmt, st pstate, ctx walkCtx, pos token.Pos) {
+	inner := walkCtx{ctx.depth + 1, append(append([]pstate(nil), ctx.loopEntry...), st)}
+	if e, term := sa.walk(body, st.clone(), inner); !term && !e.equal(st) {
+		sa.refuse(pos, "loop body ends holding other locks than at loop entry")
+	}
+}
+
+// walkSimple: assignments, inc/dec, declarations, sends, expression statements without lock calls
+func (sa *secAnalysis) walkSimple(s ast.Stmt, st pstate, ctx walkCtx) {
+	switch v := s.(type) {
+	case *ast.AssignStmt:
+		for _, l := range v.Lhs {
+			if id, ok := l.(*ast.Ident); ok {
+				if _, isAlias := sa.alias[id.Name]; isAlias {
+					sa.refuse(v.Pos(), "alias %s assigned again", id.Name)
+				}
+				if id.Name == sa.m.recvName || sa.paramTyp[id.Name] != "" {
+					sa.refuse(v.Pos(), "%s assigned", id.Name)
+				}
+			}
+			sa.scanNode(l, st, ctx, true)
+		}
+		for _, r := range v.Rhs {
+			sa.scanNode(r, st, ctx, false)
+		}
+		if len(v.Lhs) == 1 && len(v.Rhs) == 1 {
+			if id, ok := v.Lhs[0].(*ast.Ident); ok && id.Name != "_" {
+				if r, ok := sa.resolve(v.Rhs[0]); ok && r.typ != "" {
+					if v.Tok == token.DEFINE && ctx.depth == 0 {
+						sa.alias[id.Name] = r
+					} else {
+						sa.refuse(v.Pos(), "instance %s stored in %s", exprString(v.Rhs[0]), id.Name)
+					}
+				}
+			}
+		}
+	case *ast.IncDecStmt:
+		sa.scanNode(v.X, st, ctx, true)
+	case *ast.ExprStmt:
+		sa.scanNode(v.X, st, ctx, false)
+	default:
+		sa.scanNode(s, st, ctx, false)
+	}
+}
+
+func (sa *secAnalysis) run() {
+	fd := sa.m.decl
+	for _, p := range fd.Type.Params.List {
+		pt := typeName(p.Type)
+		if _, ok := memTypes[pt]; !ok {
+			pt = ""
+		}
+		for _, n := range p.Names {
+			sa.params = append(sa.params, n.Name)
+			sa.paramTyp[n.Name] = pt
+		}
+	}
+	st, term := sa.walk(fd.Body.List, nil, walkCtx{})
+	if !term && !st.allDeferred() {
+		sa.refuse(fd.Body.Rbrace, "end of body with a lock held whose release is not deferred")
+	}
+}
+
+func analyseSections(ms []*methodInfo, byKey map[string]*methodInfo, facts *repoFacts) []*secAnalysis {
+	var all []*secAnalysis
+	bySa := map[string]*secAnalysis{}
+	for _, m := range ms {
+		sa := &secAnalysis{m: m, facts: facts, byKey: byKey, paramTyp: map[string]string{}, alias: map[string]instRef{}, bare: map[string]*rw{}}
+		sa.run()
+		all = append(all, sa)
+		bySa[m.typ+"."+m.name] = sa
+	}
+	// which methods take locks themselves (directly, or by calling such a method)
+	for _, sa := range all {
+		for _, it := range sa.items {
+			if it.mode != "call" {
+				sa.locking = true
+			}
+		}
+	}
+	for changed := true; changed; {
+		changed = false
+		for _, sa := range all {
+			if sa.locking {
+				continue
+			}
+			for _, it := range sa.items {
+				if it.mode == "call" && bySa[it.inst.typ+"."+it.callee].locking {
+					sa.locking, changed = true, true
+				}
+			}
+		}
+	}
+	// calls of methods that take no lock are not sections: their accesses (all of them outside any
+	// section of their own) are charged to the section open on the instance at the call, or to `bare`
+	for round := 0; round < 4; round++ {
+		for _, sa := range all {
+			for _, it := range sa.items {
+				if it.mode != "call" {
+					continue
+				}
+				h := bySa[it.inst.typ+"."+it.callee]
+				if h.locking {
+					continue
+				}
+				if h.unknown && !sa.unknown {
+					sa.unknown = true
+					sa.why = append(sa.why, fmt.Sprintf("%s:%d calls %s.%s, which is not understood", filepath.Base(it.pos.Filename), it.pos.Line, h.m.typ, h.m.name))
+				}
+				keys := make([]string, 0, len(h.bare))
+				for k := range h.bare {
+					keys = append(keys, k)
+				}
+				sort.Strings(keys)
+				for _, k := range keys {
+					acc := h.bare[k]
+					var target instRef
+					ok := false
+					if k == h.m.recvName {
+						target, ok = it.inst, true
+					} else {
+						for i, pn := range h.params {
+							if pn == k && i < len(it.args) {
+								target, ok = sa.resolve(it.args[i])
+							}
+						}
+					}
+					if !ok {
+						// state reached through something the call site cannot name: charge it to the call's instance, unguarded
+						b := sa.bare["?"+it.inst.key]
+						if b == nil {
+							b = &rw{}
+							sa.bare["?"+it.inst.key] = b
+						}
+						b.r, b.w = b.r || acc.r, b.w || acc.w
+						continue
+					}
+					// the section that was open on the target when the call was made
+					if sec := it.held.on(target.key); sec != nil {
+						sec.reads, sec.writes = sec.reads || acc.r, sec.writes || acc.w
+					} else {
+						b := sa.bare[target.key]
+						if b == nil {
+							b = &rw{}
+							sa.bare[target.key] = b
+						}
+						b.r, b.w = b.r || acc.r, b.w || acc.w
+					}
+				}
+			}
+		}
+	}
+	// keep the calls of locking methods as items, drop the others
+	for _, sa := range all {
+		var kept []*secItem
+		for _, it := range sa.items {
+			if it.mode == "call" {
+				if !bySa[it.inst.typ+"."+it.callee].locking {
+					continue
+				}
+				if it.outer == nil && it.depth > 0 {
+					sa.unknown = true
+					sa.why = append(sa.why, fmt.Sprintf("%s:%d call of the locking method %s.%s outside every section from inside a branch or loop", filepath.Base(it.pos.Filename), it.pos.Line, it.inst.typ, it.callee))
+				}
+			}
+			kept = append(kept, it)
+		}
+		sa.items = kept
+		// seq: released before the next item starts <=> the next item does not start inside it
+		for i, it := range sa.items {
+			it.seq = true
+			if i+1 < len(sa.items) {
+				for _, o := range sa.items[i+1].held {
+					if o == it {
+						it.seq = false
+					}
+				}
+			}
+		}
+	}
+	return all
+}
+
+func writeSectionTable(sb *strings.Builder, all []*secAnalysis) {
+	sb.WriteString("/- the critical sections every method consists of, in source order (see extract/gen.go, \"Section table\") -/\n")
+	sb.WriteString("def sectionTable : List MethodSections := [\n")
+	for i, sa := range all {
+		bareR, bareW := false, false
+		for _, b := range sa.bare {
+			bareR, bareW = bareR || b.r, bareW || b.w
+		}
+		fmt.Fprintf(sb, "  -- %s:%d\n", filepath.Base(sa.m.pos.Filename), sa.m.pos.Line)
+		for _, w := range sa.why {
+			fmt.Fprintf(sb, "  --   not understood: %s\n", w)
+		}
+		fmt.Fprintf(sb, "  { typ := %q, method := %q, sectionsUnknown := %s, bareReads := %s, bareWrites := %s, sections := [",
+			sa.m.typ, sa.m.name, leanBool(sa.unknown), leanBool(bareR), leanBool(bareW))
+		for j, it := range sa.items {
+			if j > 0 {
+				sb.WriteString(",")
+			}
+			sb.WriteString("\n")
+			what := ""
+			switch {
+			case it.mode == "call":
+				what = fmt.Sprintf("call %s.%s on %s", it.inst.typ, it.callee, it.inst.show())
+			case it.conditional:
+				what = fmt.Sprintf("if .. { %s.lock.%s(); defer unlock } on %s, until return", it.inst.key, map[string]string{"W": "Lock", "R": "RLock"}[it.mode], it.inst.show())
+			case it.deferred:
+				what = fmt.Sprintf("%s.lock.%s() on %s, deferred unlock: until return", it.inst.key, map[string]string{"W": "Lock", "R": "RLock"}[it.mode], it.inst.show())
+			default:
+				what = fmt.Sprintf("%s.lock.%s() on %s, first unlock at line %d", it.inst.key, map[string]string{"W": "Lock", "R": "RLock"}[it.mode], it.inst.show(), it.endPos.Line)
+			}
+			fmt.Fprintf(sb, "      -- %s:%d %s\n", filepath.Base(it.pos.Filename), it.pos.Line, what)
+			outer, outerTyp := ".none", ""
+			if it.outer != nil {
+				outer, outerTyp = it.outer.inst.lean(), it.outer.inst.typ
+			}
+			mode := map[string]string{"W": ".W", "R": ".R", "call": ".call"}[it.mode]
+			// fields at their default (callee "", nested false, outer .none, outerTyp "", conditional false) are omitted
+			fmt.Fprintf(sb, "      { inst := %s, instTyp := %q, mode := %s", it.inst.lean(), it.inst.typ, mode)
+			if it.callee != "" {
+				fmt.Fprintf(sb, ", callee := %q", it.callee)
+			}
+			if it.nested {
+				fmt.Fprintf(sb, ", nested := true, outer := %s, outerTyp := %q", outer, outerTyp)
+			}
+			fmt.Fprintf(sb, ", seq := %s, reads := %s, writes := %s", leanBool(it.seq), leanBool(it.reads), leanBool(it.writes))
+			if it.conditional {
+				sb.WriteString(", conditional := true")
+			}
+			sb.WriteString(" }")
+		}
+		if len(sa.items) > 0 {
+			sb.WriteString("\n    ")
+		}
+		sb.WriteString("] }")
+		if i+1 < len(all) {
+			sb.WriteString(",")
+		}
+		sb.WriteString("\n")
+	}
+	sb.WriteString("]\n")
 }
 
 // ---------------------------------------------------------------------------------------------
